@@ -31,6 +31,7 @@ def shrink(case):
     return B.shrink_case(case)
 
 
+@B.deep
 def check(case, M):
     tier = case.get("tier", "quick")
     case = dict(case)
